@@ -5,6 +5,70 @@ from gallina import gcat
 from depccg.cat import Category
 
 
+PARSER_FIRST_SCRIPT = r"""
+import sys, json
+sys.path.insert(0, %(harness)r); sys.path.insert(0, %(translate)r)
+import env, gen
+import depccg.lang
+from depccg.cat import Category
+from depccg.grammar import en, ja
+from depccg.tools.reader import read_auto, read_ptb, read_jigg_xml
+job = json.load(open(sys.argv[1]))
+out = []
+for item in job:
+    lang = item['lang']
+    depccg.lang.set_global_language_to(lang)
+    binary = en.apply_binary_rules if lang == 'en' else ja.apply_binary_rules
+    # what a parser does before anybody reads a treebank in this process: its rule function is the grammar restricted to the model's
+    # seen rules (here: a set that contains none of the pairs of this file)
+    for x, y in item['pairs']:
+        binary(Category.parse(x), Category.parse(y), seen_rules=set())
+    reader = {'auto': read_auto, 'ptb': read_ptb, 'jigg_xml': read_jigg_xml}[item['format']]
+    labels = []
+    def rec(n):
+        if n.is_leaf:
+            return
+        for c in n.children:
+            rec(c)
+        if not n.is_unary:
+            labels.append([n.op_string, n.op_symbol, bool(n.head_is_left)])
+    try:
+        rec(list(reader(item['path']))[0].tree)
+    except Exception as e:
+        labels = 'raised ' + type(e).__name__
+    out.append(labels)
+print(json.dumps(out))
+"""
+
+
+def parser_first(ctx, jobs):
+    """in a NEW interpreter the grammar is first used the way the parser uses it (restricted to a seen-rule set), then the files are read:
+    the labels must be the ones read in this process (which the oracle above has judged)"""
+    import json, subprocess, sys, env
+    if not jobs:
+        return
+    sf, jf = os.path.join(ctx.work, 'parser_first.py'), os.path.join(ctx.work, 'parser_first.json')
+    open(sf, 'w').write(PARSER_FIRST_SCRIPT % {'harness': env.HARNESS, 'translate': os.path.join(env.VERIF, 'translate')})
+    json.dump([{k: v for k, v in j.items() if k != 'labels'} for j in jobs], open(jf, 'w'))
+    p = subprocess.run([sys.executable, '-B', sf, jf], stdout=subprocess.PIPE, stderr=subprocess.PIPE, text=True)
+    try:
+        got = json.loads(p.stdout.strip().splitlines()[-1])
+    except Exception:      # noqa
+        ctx.obligation('reading after parser-style use of the grammar ran in a fresh interpreter', False, f'no result ({p.stderr[-400:]!r})')
+        got = []
+    for j, g in zip(jobs, got):
+        ctx.case(('parser-first', j['format'], j['lang'], tuple(map(tuple, j['pairs']))), nontrivial=True)
+        ctx.count('reader:after_parser_style_use')
+        if g != j['labels']:
+            ctx.fail('reader_label_depends_on_history', f"{j['format']} ({j['lang']}): read in an interpreter where the grammar had first been asked for the same pairs with a seen-rule set, "
+                     f"the binary nodes are labelled {g}; read in this process they are {j['labels']}", {'format': j['format'], 'lang': j['lang'], 'pairs': j['pairs']})
+    for j in jobs:
+        try:
+            os.unlink(j['path'])
+        except OSError:
+            pass
+
+
 def reader_side(ctx):
     """files printed from licensed trees, re-read in each readable format: every binary node whose category the grammar derives
     from its children carries the first deriving rule's label (and head, where the format has no head field); others 'unk'"""
@@ -15,6 +79,7 @@ def reader_side(ctx):
     from depccg.grammar import guess_combinator_by_triplet, en, ja
     rng = ctx.rng
     cases = []
+    jobs = []
     n = 60 if ctx.quick else 600
     for it in range(n):
         lang = 'en' if rng.random() < 0.7 else 'ja'
@@ -38,7 +103,21 @@ def reader_side(ctx):
                 ctx.count(f'reader:{fmt}:unreadable')
                 os.unlink(path)
                 continue
-            os.unlink(path)
+            if got and fmt != 'xml' and len(jobs) < (24 if ctx.quick else 120):
+                lab_, prs_ = [], []
+
+                def rec0(node):
+                    if node.is_leaf:
+                        return
+                    for c in node.children:
+                        rec0(c)
+                    if not node.is_unary:
+                        lab_.append([node.op_string, node.op_symbol, bool(node.head_is_left)])
+                        prs_.append([str(node.left_child.cat), str(node.right_child.cat)])
+                rec0(got[0].tree)
+                jobs.append({'lang': lang, 'format': fmt, 'path': path, 'pairs': prs_, 'labels': lab_})
+            else:
+                os.unlink(path)
             if not got:
                 continue
             ctx.count(f'reader:{fmt}')
@@ -65,6 +144,7 @@ def reader_side(ctx):
                     if fmt in ('xml', 'ptb', 'jigg_xml') and node.head_is_left != first.head_is_left:
                         ctx.fail('reader_head', f'{fmt}: node {node.cat} has head_is_left={node.head_is_left}, the deriving rule says {first.head_is_left}', data)
             rec(got[0].tree)
+    parser_first(ctx, jobs)
     # several nodes with the SAME children categories but different parent categories, read one after the other in one process
     # (e.g. ", NP" is NP\\NP by conjunction and NP by punctuation removal): each must get the label of the rule deriving ITS category
     depccg.lang.set_global_language_to('en')
